@@ -2432,6 +2432,15 @@ do_free:
     psFree(params.sni, ssl->hsPool);
     return rc;
 }
+
+#  ifdef MATRIXSSL_VERIF
+/* Verification hook (add-only): exposes the static TLS 1.3 handshake state
+   gate for exhaustive comparison with its formal model. */
+int32_t verif_tls13CheckHsState(ssl_t *ssl, unsigned char msg)
+{
+    return tls13CheckHsState(ssl, msg);
+}
+#  endif /* MATRIXSSL_VERIF */
 # endif /* USE_TLS_1_3 */
 
 /* end of file tls13Decode.c */
